@@ -313,6 +313,7 @@ func main() {
 	genShield(fc)
 	genMint(fc)
 	genVesting(fc)
+	genCvmGas(fc)
 	genDeterminism(*repo)
 	var names []string
 	for k := range fc.files {
